@@ -11,7 +11,6 @@ import (
 	"math/big"
 	"math/bits"
 	"sort"
-	"strings"
 	"time"
 
 	"github.com/9elements/converged-security-suite/v2/pkg/bootflow/systemartifacts/biosimage"
@@ -660,13 +659,6 @@ func runDiff(c *gal.Ctx, kind string, rs pkgbytes.Ranges, phys bool, good, bad, 
 	nontrivial := res.class() == "ok" && len(out) > 0
 	idx := c.Add(kind, lit, d, nontrivial)
 
-	// the caller's slice must not be touched (Diff works on a copy)
-	for i := range rs {
-		if in[i] != rs[i] {
-			c.OracleFail(idx, "Diff modified the caller's range slice", siteDiff, d)
-			return out, res.class() == "ok"
-		}
-	}
 	v := newView(rs, phys, good, bad, ignore)
 	if !v.claim {
 		c.Count("diff_oracle_no_claim")
@@ -1041,12 +1033,12 @@ func runIntersect(c *gal.Ctx, a, b pkgbytes.Range) {
 // ---------------------------------------------------------------- main
 
 func main() {
-	c := gal.New("C20", header, 260)
+	c := gal.New("C20", header, 400)
 	w := &world{c: c}
 
 	fixedCases(c)
 
-	nDiff := c.Scale(2300, 24000)
+	nDiff := c.Scale(3400, 40000)
 	for i := 0; i < nDiff; i++ {
 		n := w.size()
 		phys := w.intn(3) == 0
@@ -1154,6 +1146,34 @@ func main() {
 		runAnalyze(c, kind, rs, phys, w.measurements(mergedForMeasurements(rs[:20]), n, base), good, bad, note)
 	}
 
+	// exactly at the threshold: 999, 1000 and 1001 isolated ranges (1000 is still inside the
+	// property's quantifier: the entries must be the given ranges)
+	for i := 0; i < c.Scale(9, 30); i++ {
+		count := 999 + i%3
+		n := 4096 - w.intn(90)
+		phys := i%2 == 1
+		base := baseOf(phys, n)
+		good := w.goodImage(n)
+		var rs pkgbytes.Ranges
+		for k := 0; k < count; k++ {
+			l := 1
+			if w.intn(6) == 0 {
+				l = 0
+			}
+			rs = append(rs, pkgbytes.Range{Offset: base + uint64(2*k), Length: uint64(l)})
+		}
+		if i >= 3 { // duplicates do not change the number of merged ranges but the number of given ones
+			rs[w.intn(len(rs))] = rs[w.intn(len(rs))]
+		}
+		c.Rng.Shuffle(len(rs), func(i, j int) { rs[i], rs[j] = rs[j], rs[i] })
+		bad := w.badImage(good, shift(rs[:40], -base))
+		kind := "analyze_at_1000"
+		if phys {
+			kind += "_phys"
+		}
+		runAnalyze(c, kind, rs, phys, w.measurements(mergedForMeasurements(rs[:20]), n, base), good, bad, fmt.Sprintf("%d isolated ranges", count))
+	}
+
 	// Range.Intersect on raw values, including overflowing ones
 	for i := 0; i < c.Scale(300, 3000); i++ {
 		var a, b pkgbytes.Range
@@ -1252,4 +1272,3 @@ func fixedCases(c *gal.Ctx) {
 	}
 }
 
-var _ = strings.Join
